@@ -122,7 +122,7 @@ static inline void bufseq_begin(bufseq_t b) { g_rd_size = BUFSEQ_SIZE(b, 0); g_r
 static inline void bufseq_advance(bufseq_t b, size_t *k)
 {
   (void)b; g_rd_pre = g_rd_pre + g_rd_size; __CPROVER_assume(g_rd_pre <= RD_SPACE_MAX);
-  size_t nx = nondet_size(); __CPROVER_assume(nx <= RD_SPACE_MAX); g_rd_size = nx;
+  size_t nx = nondet_size(); __CPROVER_assume(nx <= RD_SPACE_MAX - g_rd_pre); g_rd_size = nx;
   *k = *k + 1;
 }
 /* the receive queue only holds what incoming_packet appended: payload and error packets (ASSUMED element invariant, a
@@ -130,7 +130,7 @@ static inline void bufseq_advance(bufseq_t b, size_t *k)
 static inline struct packet *pl_front_recv(struct pktlist *q)
 {
   struct packet *f = pl_front(q);
-  __CPROVER_assume((f->type == PKT_payload || f->type == PKT_error) && f->bufsz <= PKT_MAX && (f->type == PKT_error ? (f->ec != 0 && f->ec != EC_would_block && f->bufsz == 0) : f->bufsz >= 1));
+  __CPROVER_assume((f->type == PKT_payload || f->type == PKT_error) && f->bufsz <= SEG_MAX && (f->type == PKT_error ? (f->ec != 0 && f->ec != EC_would_block && f->bufsz == 0) : f->bufsz >= 1));
   return f;
 }
 /* memcpy(buffer k of the caller's sequence + off, front packet's payload, n) */
@@ -148,5 +148,31 @@ static inline void pl_front_consume(struct pktlist *q, struct packet *p, int n)
 {
   __CPROVER_assert(n >= 0 && (size_t)n <= p->bufsz, "[C12.deref] erase(begin(), begin() + n) within the payload");
   p->bufsz = p->bufsz - (size_t)n; q->bytes = q->bytes - (int64_t)n;
+}
+#endif
+#ifndef VF_TCP_AVAIL_H
+#define VF_TCP_AVAIL_H
+/* element i of the receive queue (same ASSUMED element invariant as pl_front_recv) */
+static inline struct packet *pl_at_recv(struct pktlist *q, size_t i)
+{
+  __CPROVER_assert(i < q->len, "[C12.deref] iteration stays inside the list");
+  struct packet *f = &q->a[q->head + i];
+  __CPROVER_assume((f->type == PKT_payload || f->type == PKT_error) && f->bufsz <= SEG_MAX && (f->type == PKT_error ? (f->ec != 0 && f->ec != EC_would_block && f->bufsz == 0) : f->bufsz >= 1));
+  return f;
+}
+#endif
+#ifndef VF_TCP_WRITE_H
+#define VF_TCP_WRITE_H
+/* ---- write_some_impl: the caller's buffers are cut into segments, in order ---- */
+/* p.buffer.assign(ptr, ptr + n) where ptr walks buffer bi of the caller's sequence: the segment's payload is bytes
+ * [off, off + n) of that buffer.  Ghost: position right behind the previous segment's source range, counters. */
+extern size_t g_wr_pkts, g_wr_bytes, g_wr_bi, g_wr_off, g_wr_rem;
+#define WR_GHOST g_wr_pkts, g_wr_bytes, g_wr_bi, g_wr_off, g_wr_rem
+static inline void buf_assign_range(buf_t *dst, bufseq_t src, size_t bi, size_t off, int n, int room)
+{
+  __CPROVER_assert(n >= 1 && n <= room, "[C12.deref] the range copied into the segment lies inside the caller's buffer");
+  __CPROVER_assert(g_wr_pkts == 0 ? 1 : (bi == g_wr_bi ? off == g_wr_off : (bi > g_wr_bi && off == 0 && g_wr_rem == 0)), "[C05.inorder] segments carry consecutive ranges of the caller's data, in order");
+  dst->sz = (size_t)n; dst->id = nondet_int(); dst->data = (const uint8_t *)0;
+  g_wr_pkts = g_wr_pkts + 1; g_wr_bytes = g_wr_bytes + (size_t)n; g_wr_bi = bi; g_wr_off = off + (size_t)n; g_wr_rem = (size_t)(room - n);
 }
 #endif
